@@ -295,6 +295,16 @@ itm('replace_it2_ii', 'replace( const_iterator first, const_iterator last, itera
     'FS& cv_r = o->replace( CV_IT(o, i1), CV_IT(o, i2), CV_IT(&other, j1), CV_IT(&other, j2)); return &cv_r == o;',
     _rep(P('i1'), CNT2, '(%s - %s)' % (PO('j2'), PO('j1')), 'SRC(other,%s + J)' % PO('j1'), dom=RNG + ' && ' + RNGO), VALID('i1') + ' && ' + VALID('i2') + ' && ' + RNGO)
 
+# std::string sources of ANY length (the property says "source strings of any size"): the members that take a whole std::string and
+# never index into it; the find_*_of family scans the whole set with strchr and the (str, pos, count) overloads take sub-ranges
+# (std::string::substr temporaries), they keep the bounded sources
+for _m in METHODS + OBS:
+    if _m.id in ('assign_S', 'opassign_S', 'ctor_S', 'append_S', 'pluseq_S', 'insert_S', 'replace_pcS', 'compare_S', 'compare_pcS', 'starts_with_S',
+                 'ends_with_S', 'contains_S', 'find_S', 'rfind_S',
+                 'assign_s', 'opassign_s', 'ctor_s', 'append_s', 'pluseq_s', 'insert_s', 'replace_pcs', 'compare_s', 'compare_pcs', 'starts_with_s',
+                 'ends_with_s', 'contains_s', 'find_sp', 'rfind_sp'):
+        _m.long_src = True
+
 # ---- cross-capacity members (template< size_t S>, textually instantiated with S := CV_S, see T-INST-S): the other operand is a
 # FixedString of the second capacity S2 of the proof instance ('G' argument: ghosts str_n <= S2, str_0..); the specification is
 # the one of the std::string overload (same names), evaluated with source width S2
